@@ -410,7 +410,7 @@ func (c *Conn) Step(b []byte) ([]byte, bool, error) {
 	}
 	if !c.WaitIdle() {
 		o, eof := c.Output()
-		return o, eof, fmt.Errorf("server did not become idle within %v after %q (backend: %s)\n%s", IdleTimeout, trunc(b), c.beState(), GoroutineDump("go-smtp"))
+		return o, eof, c.NotIdleError(fmt.Sprintf("after %q", trunc(b)))
 	}
 	o, eof := c.Output()
 	return o, eof, nil
@@ -430,6 +430,69 @@ func (c *Conn) Replies(b []byte) ([]wire.Reply, bool, error) {
 		return rs, eof, fmt.Errorf("reply syntax: incomplete reply %q", rest)
 	}
 	return rs, eof, nil
+}
+
+// StuckError reports that the server's handler for a connection is blocked
+// inside the library (not waiting for input, not parked at a harness gate)
+// and stayed so for the whole idle timeout: a proven hang, not a slow run.
+type StuckError struct {
+	Where string
+	Dump  string
+}
+
+func (e *StuckError) Error() string {
+	return "server handler is blocked at " + e.Where
+}
+
+// NotIdleError classifies an idle timeout: a *StuckError if the handler
+// goroutine of this connection is blocked inside go-smtp, a plain error
+// (inconclusive) otherwise.
+func (c *Conn) NotIdleError(ctx string) error {
+	ptr := ""
+	if c.SC != nil {
+		ptr = fmt.Sprintf("%p", c.SC)
+	}
+	buf := make([]byte, 8<<20)
+	n := runtime.Stack(buf, true)
+	for _, g := range strings.Split(string(buf[:n]), "\n\n") {
+		if ptr == "" || !strings.Contains(g, "handleConn(") || !strings.Contains(g, ptr) {
+			continue
+		}
+		lines := strings.Split(g, "\n")
+		state := ""
+		if i, j := strings.IndexByte(lines[0], '['), strings.IndexByte(lines[0], ']'); i >= 0 && j > i {
+			state = lines[0][i+1 : j]
+		}
+		blocked := false
+		for _, st := range []string{"chan receive", "chan send", "select", "semacquire", "sync.Mutex.Lock", "sync.WaitGroup.Wait", "sync.Cond.Wait"} {
+			if strings.HasPrefix(state, st) {
+				blocked = true
+			}
+		}
+		// first frame that is not runtime / sync / io internals
+		where := ""
+		for _, l := range lines[1:] {
+			l = strings.TrimSpace(l)
+			if strings.HasPrefix(l, "/") || l == "" {
+				continue
+			}
+			if strings.HasPrefix(l, "runtime.") || strings.HasPrefix(l, "sync.") || strings.HasPrefix(l, "io.") || strings.HasPrefix(l, "internal/") {
+				continue
+			}
+			where = l
+			break
+		}
+		if blocked && strings.HasPrefix(where, "github.com/emersion/go-smtp.") {
+			if i := strings.IndexByte(where, '('); i > 0 {
+				// keep the function name, drop argument values
+				j := strings.LastIndexByte(where, '(')
+				where = where[:j]
+			}
+			IdleTimeout = 3 * time.Second // the server is wedged: do not wait long again
+			return &StuckError{Where: where + " [" + state + "]", Dump: g}
+		}
+	}
+	return fmt.Errorf("server did not become idle within %v %s (backend: %s)\n%s", IdleTimeout, ctx, c.beState(), GoroutineDump("go-smtp"))
 }
 
 func (c *Conn) beState() string {
